@@ -418,6 +418,10 @@ def bracket_scripts():
                 ['step f1_b always_fail']))
     out.append(('lazy-retry', ['builder max_concurrent=2 retries=2'] + f_rules('f1') + feat('f2', ['  Rule: r', '    Scenario: x', '      Given x'], late=5) +
                 ['step f1_c fail_first=2 yields=1', 'step x yields=2']))
+    # attempts that do not start at current = 0 (a custom retry resolver may hand out any RetryOptions): a whole rule and a
+    # whole feature made of such scenarios still get their brackets
+    out.append(('resumed-attempts', ['builder max_concurrent=2 retry_resolver=resumed'] + f_rules('f1') +
+                feat('f2', ['  Rule: only', '    Scenario: f2_a', '      Given f2_a', '    Scenario: f2_c', '      Given f2_c']) + ['step f1_a fail_first=1', 'step f2_c yields=2']))
     out.append(('parse-error', ['builder max_concurrent=2', 'parse_error'] + f_rules('f1') + ['parse_error late=1'] + feat('f2', ['  Scenario: y', '    Given y'])))
     return out
 
